@@ -14,8 +14,17 @@ FUNCTIONS = ["SuccessionDiagram.skip_remaining", "SuccessionDiagram.skip_to_mini
              "compute_attractor_candidates (skip-node intersection exclusion)", "SuccessionDiagram.node_attractor_seeds"]
 
 
+def extra_vars(task, net):
+    if task["params"].get("cfg"):
+        return hist.declare_config(fields={"cfg_motifs": "max_motifs_per_node"})
+    return [], []
+
+
 def execute(rules, skeleton, H, names, params):
-    sd, trace = hist.run_history(rules, skeleton, H, names, attractors=True)
+    cfg = None
+    if params.get("cfg"):
+        cfg = hist.read_config(H, isinstance(H, hist.SymH), fields={"cfg_motifs": "max_motifs_per_node"})
+    sd, trace = hist.run_history(rules, skeleton, H, names, attractors=True, config=cfg)
     return {"trace": trace}
 
 
@@ -25,7 +34,10 @@ def assertion(B, rules, skeleton, out, params):
     for k, ent in enumerate(tr):
         if ent["rec"].get("skipped"):
             continue
-        parts.append((f"op {k} {ent['kind']}: no exception ({ent['rec']['exc']}: {ent['rec'].get('msg')})", B.const(ent["rec"]["exc"] is None)))
+        exc = ent["rec"]["exc"]
+        # with a small configured motif limit the documented limit error is a legal outcome (then nothing is claimed)
+        legal = exc is None or (params.get("cfg") and exc == "RuntimeError" and "maximum amount of stable motifs" in (ent["rec"].get("msg") or ""))
+        parts.append((f"op {k} {ent['kind']}: no exception ({exc}: {ent['rec'].get('msg')})", B.const(bool(legal))))
     if any(e["rec"]["exc"] is not None for e in tr):
         return parts
     dump = tr[-1]["dump"]
@@ -81,6 +93,10 @@ def tasks(tier, seed, selftest=False):
     for fam, box in (("P:MAA3+SRC1", 40), ("P:MAA3+SW2", 40), ("P:MAA3+SW2+SW2", 60)):
         for sk in (("succ", "skiprem", "everyseeds"), ("succ", "skipall", "everyseeds")):
             S.append(dict(family=fam, skeleton=sk, timebox=box if q else 900))
+    # a small (symbolic) max_motifs_per_node: skipping must either raise the limit error or keep every minimal trap space
+    for sk in (("skipall", "everyseeds"), ("succ", "skipall", "everyseeds"), ("skiprem", "everyseeds"), ("fmin", "everyseeds")):
+        S.append(dict(family="U2", skeleton=sk, timebox=15 if q else 600, tag="cfg", params={"cfg": True}))
+        S.append(dict(family="P:SW2+SW2", skeleton=sk, timebox=15 if q else 600, tag="cfg", params={"cfg": True}))
     S.append(dict(family="U2", skeleton=("skiprem", "everyseeds"), timebox=60))
     S.append(dict(family="D3", skeleton=("skiprem", "everyseeds"), timebox=20 if q else 900))
     if not q:
